@@ -14,16 +14,18 @@ PROPS = {
                 "category record/whole category, tracker registration, date, decode-only types) drained through a generated "
                 "script of read-buffer sizes and compared with the independent hlref encoder, then decoded back; "
                 "non-trivial = at least one variable-length part non-empty AND the drain needed more than one Read with data; "
-                "distinct = hash(kind, reference bytes, drain script); a tenth of the transactions carry 255-1000 fields; TestC01Tracker: the production registration loop in a child process with 1-4 trackers that are UDP sockets of the harness: each configured tracker must receive exactly one datagram equal to the reference encoding of the registration (port, 0 users, name, description; non-trivial = more than one tracker)",
+                "distinct = hash(kind, reference bytes, drain script); a tenth of the transactions carry 255-1000 fields; TestC01Tracker: the production registration loop in a child process with 1-4 trackers that are UDP sockets of the harness: each configured tracker must receive exactly one datagram equal to the reference encoding of the registration (port, 0 users, name, description; non-trivial = more than one tracker); TestC01Register: the per-tracker send function with name, description and password of 0-255 bytes each: one datagram equal to the reference record, also when it is longer than 508 bytes",
         "assumptions": ["hlref (written from the protocol document) is the wire-format oracle",
                         "TZ pinned to UTC for the date type",
                         "drain cost bounded: buffers >= len^2/2MiB (encoders rebuild their output per Read)"],
         "needs_cmds": True,
         "quick": {"runs": [{"test": "^TestC01$", "shards": 16, "checks": 5000, "timeout": 300},
-                           {"test": "^TestC01Tracker$", "shards": 1, "checks": 8, "timeout": 600}]},
+                           {"test": "^TestC01Tracker$", "shards": 1, "checks": 8, "timeout": 600},
+                           {"test": "^TestC01Register$", "shards": 1, "checks": 150, "timeout": 600}]},
         "thorough": {"runs": [
             {"test": "^TestC01$", "shards": 16, "checks": 150000, "timeout": 3000, "group": 0},
             {"test": "^TestC01Tracker$", "shards": 2, "checks": 150, "timeout": 3000, "group": 0},
+            {"test": "^TestC01Register$", "shards": 1, "checks": 5000, "timeout": 3000, "group": 0},
             {"fuzz": "^FuzzC01$", "test": "FuzzC01", "fuzztime": "120s", "timeout": 400, "group": 1, "weight": 16},
             {"fuzz": "^FuzzC01Decode$", "test": "FuzzC01Decode", "fuzztime": "120s", "timeout": 400, "group": 2, "weight": 16},
         ]},
